@@ -21,7 +21,7 @@ def run_check(cid):
 
 def main():
     args = sys.argv[1:]
-    checks, jobs, dirs = "all", 4, []
+    checks, jobs, dirs = "auto", 4, []
     i = 0
     while i < len(args):
         if args[i] == "--checks":
@@ -37,7 +37,16 @@ def main():
     for d in dirs:
         d = os.path.abspath(d)
         own = os.path.basename(os.path.dirname(d))
-        ids = ALL if checks == "all" else ([own] if checks == "own" else checks.split(","))
+        if checks == "auto":
+            touched = [l.split(" b/")[-1].strip() for l in open(os.path.join(d, "patch.diff")) if l.startswith("diff --git")]
+            rel = {"probminhash2.rs": "C01 C02 C12 C13", "probminhash3.rs": "C01 C02 C12 C13", "probminhash3sha.rs": "C01 C02 C12 C18",
+                   "superminhasher.rs": "C03 C04 C05 C13 C14", "superminhasher2.rs": "C03 C04 C13 C14",
+                   "setsketcher.rs": "C04 C05 C06 C07 C13 C14 C20", "densminhash.rs": "C04 C08 C09 C12 C13",
+                   "probordminhash2.rs": "C10 C11 C12 C13", "maxvaluetrack.rs": "C15 C02 C11", "fyshuffle.rs": "C17 C02 C04 C05",
+                   "exp01.rs": "C16 C01 C02", "invhash.rs": "C19", "sig.rs": "C18", "jaccard.rs": "C14 C07 C08"}
+            ids = sorted(set(([own] if own in ALL else []) + [c for t in touched for c in rel.get(os.path.basename(t), "").split()]))
+        else:
+            ids = ALL if checks == "all" else ([own] if checks == "own" else checks.split(","))
         a = sh("git -C /repo apply %s/patch.diff" % d)
         if a.returncode != 0:
             print("%s: patch does not apply: %s" % (d, a.stdout[-300:]))
@@ -53,7 +62,10 @@ def main():
                "lines": {cid: [l[:400] for l in lines] for cid, lines in caught.items()},
                "seconds": {cid: s for cid, _, _, s in res}}
         json.dump(out, open(os.path.join(d, "result.json"), "w"), indent=1)
-        print("%s: own check %s; caught by %s" % (out["seeded"], "CATCHES" if out["own_check_catches"] else "MISSES", out["caught_by"]))
+        if own in ALL:
+            print("%s: own check %s; caught by %s" % (out["seeded"], "CATCHES" if out["own_check_catches"] else "MISSES", out["caught_by"]))
+        else:
+            print("%s: behaviour-preserving change; alarms from %s (checks run: %s)" % (out["seeded"], out["caught_by"] or "none", ids))
         for cid in sorted(caught):
             for l in caught[cid][:2]:
                 print("    " + l[:260])
